@@ -246,14 +246,16 @@ func runC05(c *core.Check) {
 					name = f.Name
 				}
 				switch name {
-				case "PopN", "Pop", "Push", "Val", "Call", "CallWith", "BinaryOp", "UnaryOp", "basicLit", "Typ", "Convert":
+				case "Val", "basicLit", "BinaryOp", "UnaryOp":
+					// a new value (a literal, a computed text) takes the operand's place; converting the operand itself —
+					// cb.Typ(float64) … Call(1) around the same element, then its `string` member — is still in place
 					bad, what = call.Pos(), name
 				}
 				return true
 			})
 			return false
 		})
-		c.Decide(!bad.IsValid(), "string-conversion", "in-place", fd.Pos(), "the operand is converted through its string/error member only", "the arm of compileStringLitEx for an embedded expression calls "+what+": the operand is taken off the stack, replaced or wrapped instead of being converted through its `string` member — the interpolated text is no longer what explicit concatenation with x.string yields")
+		c.Decide(!bad.IsValid(), "string-conversion", "in-place", fd.Pos(), "no substitute value is pushed for the operand", "the arm of compileStringLitEx for an embedded expression calls "+what+": a new value (a literal, a folded text) is pushed in place of the operand instead of converting the operand through its `string` member — the interpolated text is no longer what explicit concatenation with x.string yields")
 	}
 	// ---------- (4) `$$` convention and the splitter's offsets
 	{
